@@ -47,10 +47,17 @@ def use_ktables(path):
     KTableCache().clear_cache()
 
 
+WN_DTYPE = None        # set by a check for the duration of one case (integer-dtype wavenumber axis quota)
+
+
 def mem_opacity(name, tg, pg_pa, tab, wn, mode='linear'):
     """in-memory cross-section table: tab[P, T, wn] (cm2), pressures in Pa"""
     from taurex.opacity.interpolateopacity import InterpolatingOpacity
     tg, pg_pa, tab, wn = (np.asarray(x, float) for x in (tg, pg_pa, tab, wn))
+    if WN_DTYPE is not None and np.all(wn == np.round(wn)):
+        # quota: a table whose wavenumber axis is stored with an integer (or single-precision) dtype, as loaders of
+        # user-made files can produce; the values are the same numbers
+        wn = wn.astype(WN_DTYPE)
 
     class MemOpacity(InterpolatingOpacity):
         def __init__(self):
